@@ -20,7 +20,7 @@ type Callback struct {
 }
 
 // PanicKinds are the panic values used by C06.
-var PanicKinds = []string{"nil", "error", "string", "runtime", "nilderef", "struct", "custom", "ctxcanceled", "ctxwrapped"}
+var PanicKinds = []string{"nil", "error", "string", "runtime", "nilderef", "struct", "custom", "ctxcanceled", "ctxwrapped", "typednil"}
 
 // Work is one piece of managed work started on a module while it is online.
 type Work struct {
